@@ -1,6 +1,8 @@
 package verifsim
 
 import (
+	_ "time/tzdata" // the simulated command may run in any time zone
+
 	"context"
 	"fmt"
 	"io"
@@ -87,7 +89,7 @@ func (o *Outcome) ErrClass() string {
 
 // CLIRunner executes the real command with argv against cli, writing to
 // stdout. It is installed by the overlay test file in package main.
-var CLIRunner func(cli command.Cli, argv []string, stdout io.Writer) error
+var CLIRunner func(ctx context.Context, cli command.Cli, argv []string, stdout io.Writer) error
 
 // simCli is the command.Cli stub: only Client() is implemented.
 type simCli struct {
@@ -433,7 +435,10 @@ func runEngine(d *Daemon, p *Plan) (res evalResult) {
 	eng := logqlengine.NewEngine(q, logqlengine.Options{
 		LookbackDuration: time.Duration(p.Params.LookbackNs),
 	})
-	res.data, res.err = eng.Eval(context.Background(), p.Query, logqlengine.EvalParams{
+	ctx, cancel := context.WithCancel(context.Background())
+	defer cancel()
+	d.CancelFn = cancel
+	res.data, res.err = eng.Eval(ctx, p.Query, logqlengine.EvalParams{
 		Start: otelstorage.Timestamp(p.Params.Start),
 		End:   otelstorage.Timestamp(p.Params.End),
 		Step:  time.Duration(p.Params.StepNs),
@@ -513,8 +518,20 @@ func runCLI(d *Daemon, p *Plan, out *Outcome) (res evalResult) {
 	if CLIRunner == nil {
 		panic("verifsim: CLIRunner not installed (binary built without the cli overlay)")
 	}
+	if p.CLI.TZ != "" {
+		loc, err := time.LoadLocation(p.CLI.TZ)
+		if err != nil {
+			panic(HarnessLimit{Msg: "time zone database not available: " + err.Error()})
+		}
+		old := time.Local
+		time.Local = loc
+		defer func() { time.Local = old }()
+	}
+	ctx, cancel := context.WithCancel(context.Background())
+	defer cancel()
+	d.CancelFn = cancel
 	var sb strings.Builder
-	res.err = CLIRunner(&simCli{c: d}, p.CLI.Argv, &sb)
+	res.err = CLIRunner(ctx, &simCli{c: d}, p.CLI.Argv, &sb)
 	out.Stdout = sb.String()
 	return res
 }
